@@ -156,19 +156,21 @@ DocsFor(q) ==
 DocTable == TLCEval([id \in DOMAIN ProgTable |-> DocsFor(ProgTable[id])])
 
 (* ---------------------------------------------------------------- model *)
-VARIABLES prog, pv, stage, ep, doc, dec, ran, res
+VARIABLES prog, pv, stage, ep, doc, dec, ran, res, origin
 INSTANCE Runtime WITH Programs <- ProgTable
 
 Init ==
     /\ prog \in DOMAIN ProgTable
     /\ pv = <<>>
     /\ stage = "fresh"
-    /\ ep = "none" /\ doc = NoDoc /\ dec = NoDec /\ ran = <<>> /\ res = "none"
+    /\ ep = "none" /\ doc = NoDoc /\ dec = NoDec /\ ran = <<>> /\ res = "none" /\ origin = Chain
 
 Next ==
     \/ Expand
     \/ /\ stage = "idle"          \* deliveries are independent: one per behaviour
        /\ \E k \in Kinds \ {"reply"} : \E d \in DocTable[prog] : Deliver(k, d)
+    \/ /\ stage = "idle"
+       /\ \E i \in 1..Len(P.parts) : \E m \in Range(P.parts[i].methods) : RemoteSend(i, m)
     \/ (\E o \in Oracles(P, ep, doc) : WrapperDecode(o))
     \/ (\E v \in {"ok", "err"} : StructVerdictOk(v) /\ StructDecode(v))
     \/ Dispatch \/ Return
